@@ -105,6 +105,9 @@ def run(tier):
     c.cov["deviation_witness"] = "MC_Modules_dev.cfg: " + d.violation
     j1, n1 = lib.gen_step(c, "Gen_CGlueObj", "Gen_CGlueObj_d2.cfg", "gen_obj_d2")
     j2, n2 = lib.gen_step(c, "Gen_CGlueObj", "Gen_CGlueObj.cfg", "gen_obj_sim", simulate="num=%d" % (20 if quick else 200), workers=4, seed_=lib.seed())
+    # by-value calls on objects that hold the last context reference (the scenario set of C07): across modules the context
+    # is what keeps the callee's code loaded; its release inside the callee window is observed by the host
+    jf, nf = lib.gen_step(c, "Gen_CGlueObj", "Gen_CGlueObj_fine.cfg", "gen_obj_fine")
     jv, nv = lib.gen_step(c, "Gen_CVec", "Gen_CVec.cfg", "gen_cvec_x")
     limit = 4000 if quick else 40000
     sl = j2 + ".slice"
@@ -123,7 +126,7 @@ def run(tier):
         rt, so = built[(host, "rt")], built[(plug, "xplugin")]
         label = "(host %s, plugin %s)" % (host, plug)
         labels.append(label)
-        for jsonl, ns in ((j1, 2), (sl, 3)):
+        for jsonl, ns in ((j1, 2), (sl, 3), (jf, 2)):
             b, s, k = obj_replay(c, rt, so, jsonl, ns, label)
             tb += b
             ts += s
